@@ -388,6 +388,41 @@ func boundsSites(p *core.Prog, fis []*core.FuncInfo, strIdxOK map[token.Pos]bool
 					}
 				}
 			}
+			// inside `switch X { case "…", "…": … }`: X equals one of the constants
+			{
+				var minLen int64 = -1
+				ast.Inspect(fi.Decl.Body, func(m ast.Node) bool {
+					sw, ok := m.(*ast.SwitchStmt)
+					if !ok || sw.Tag == nil || exprStr(sw.Tag) != x {
+						return true
+					}
+					for _, cl := range sw.Body.List {
+						cc := cl.(*ast.CaseClause)
+						if cc.List == nil || !(cc.Pos() <= n.Pos() && n.End() <= cc.End()) {
+							continue
+						}
+						ml := int64(1 << 30)
+						for _, ce := range cc.List {
+							tv, ok := info.Types[ce]
+							if !ok || tv.Value == nil || tv.Value.Kind() != constant.String {
+								ml = -1
+								break
+							}
+							if l := int64(len(constant.StringVal(tv.Value))); l < ml {
+								ml = l
+							}
+						}
+						if ml >= 0 && ml != 1<<30 {
+							minLen = ml
+						}
+					}
+					return true
+				})
+				if minLen >= min {
+					// the tag must not be reassigned inside the clause before the use: rely on modifiedOnPath-free simple check
+					return true, fmt.Sprintf("inside a case of switch %s whose constants have length ≥ %d", x, minLen)
+				}
+			}
 			// X, err := R.Peek(n); err == nil ⇒ len(X) == n
 			if id, ok := n.(*ast.IndexExpr); ok {
 				if o := core.ObjOf(info, id.X); o != nil {
@@ -852,10 +887,31 @@ func affineIndex(fi *core.FuncInfo, fl *core.Flow, info *types.Info, x *ast.Inde
 	if !ok || v == nil {
 		return false, ""
 	}
+	// range key over A while X := make([]T, len(A))
+	if k == 0 {
+		for _, d := range defsOf(fi, v) {
+			rs, isRange := d.Stmt.(*ast.RangeStmt)
+			if !isRange || rs.Key == nil || core.ObjOf(info, rs.Key) != v || !(rs.Body.Pos() <= x.Pos() && x.End() <= rs.Body.End()) {
+				continue
+			}
+			if xo := core.ObjOf(info, x.X); xo != nil {
+				if xd := singleDef(fi, xo); xd != nil {
+					if mk, isCall := ast.Unparen(xd.Rhs).(*ast.CallExpr); isCall && exprStr(mk.Fun) == "make" && len(mk.Args) >= 2 && exprStr(mk.Args[1]) == "len("+exprStr(rs.X)+")" {
+						if !modifiedOnPath(fi, fl, xd.Stmt, x, varsIn(info, rs.X), []string{xs, exprStr(rs.X)}) {
+							return true, "range key of " + exprStr(rs.X) + "; " + xs + " was made with that length"
+						}
+					}
+				}
+			}
+		}
+	}
 	// lower bound: i+k ≥ 0
 	lowOK, lowHow := false, ""
 	if lb, ok := varLowerBound(fi, v); ok && lb+k >= 0 {
 		lowOK, lowHow = true, fmt.Sprintf("%s ≥ %d by its definitions", v.Name(), lb)
+	}
+	if !lowOK && k >= 0 && clampedNonNeg(fi, v, x.Pos()) {
+		lowOK, lowHow = true, v.Name()+" is clamped at zero"
 	}
 	for _, cm := range cmps {
 		if core.ObjOf(info, cm.l) == v && !lowOK {
@@ -895,6 +951,46 @@ func affineIndex(fi *core.FuncInfo, fl *core.Flow, info *types.Info, x *ast.Inde
 		// i < len+c  ⇒ i+k < len iff k ≤ -c ;  i <= len+c ⇒ i+k < len iff k < -c
 		if (cm.op == token.LSS && k <= -c) || (cm.op == token.LEQ && k < -c) {
 			return true, lowHow + "; dominating " + exprStr(cm.g.Cond)
+		}
+	}
+	// i := P - c0 (c0 ≥ 1) with a dominating P <= len(X), then only decremented
+	{
+		var initRhs ast.Expr
+		onlyDec := true
+		ninit := 0
+		for _, d := range defsOf(fi, v) {
+			switch st := d.Stmt.(type) {
+			case *ast.IncDecStmt:
+				if st.Tok != token.DEC {
+					onlyDec = false
+				}
+			case *ast.AssignStmt:
+				if d.Rhs == nil {
+					onlyDec = false
+				} else {
+					initRhs = d.Rhs
+					ninit++
+				}
+			default:
+				onlyDec = false
+			}
+		}
+		if onlyDec && ninit == 1 && k <= 0 {
+			if be, ok := ast.Unparen(initRhs).(*ast.BinaryExpr); ok && be.Op == token.SUB {
+				if c0, isConst := intConst(info, be.Y); isConst && c0 >= 1 {
+					if po := core.ObjOf(info, be.X); po != nil {
+						for _, cm := range cmps {
+							if core.ObjOf(info, cm.l) != po {
+								continue
+							}
+							lx, c, ok := lenForm(fi, cm.r, 0)
+							if ok && lx == xs && stable(cm.g) && ((cm.op == token.LEQ && c <= 0) || (cm.op == token.LSS && c <= 1)) {
+								return true, lowHow + "; " + v.Name() + " starts at " + exprStr(initRhs) + " with " + exprStr(cm.g.Cond) + " and only decreases"
+							}
+						}
+					}
+				}
+			}
 		}
 	}
 	// decreasing loops: i := len(X)-c0 (c0 ≥ 1), only decremented
@@ -1097,6 +1193,40 @@ func shrunkIn(fi *core.FuncInfo, body ast.Node, xs string) bool {
 	return hit
 }
 
+// clampedNonNeg: a statement `if v < 0 { v = c }` (c ≥ 0) precedes the use at top level of the function body, and v is
+// not assigned a possibly negative value afterwards (only the clamp and definitions before it exist).
+func clampedNonNeg(fi *core.FuncInfo, o types.Object, usePos token.Pos) bool {
+	info := fi.Pkg.TypesInfo
+	var clampEnd token.Pos
+	for _, st := range fi.Decl.Body.List {
+		is, ok := st.(*ast.IfStmt)
+		if !ok || is.End() > usePos || len(is.Body.List) != 1 || is.Else != nil {
+			continue
+		}
+		be, ok := ast.Unparen(is.Cond).(*ast.BinaryExpr)
+		if !ok || core.ObjOf(info, be.X) != o || be.Op != token.LSS {
+			continue
+		}
+		if cv, ok := intConst(info, be.Y); !ok || cv != 0 {
+			continue
+		}
+		if as, ok := is.Body.List[0].(*ast.AssignStmt); ok && len(as.Lhs) == 1 && core.ObjOf(info, as.Lhs[0]) == o {
+			if cv, ok := intConst(info, as.Rhs[0]); ok && cv >= 0 {
+				clampEnd = is.End()
+			}
+		}
+	}
+	if clampEnd == token.NoPos {
+		return false
+	}
+	for _, d := range defsOf(fi, o) {
+		if d.Stmt.Pos() > clampEnd {
+			return false
+		}
+	}
+	return true
+}
+
 // nonNegExpr: e is a variable whose every definition in the function is a non-negative constant,
 // a len() call, a range key, or an increment/addition of non-negative values; or a call to len.
 func nonNegExpr(fi *core.FuncInfo, e ast.Expr) bool {
@@ -1116,7 +1246,13 @@ func nonNegExpr(fi *core.FuncInfo, e ast.Expr) bool {
 		return false
 	}
 	o := core.ObjOf(info, id)
-	if o == nil || isParam(fi, o) {
+	if o == nil {
+		return false
+	}
+	if clampedNonNeg(fi, o, e.Pos()) {
+		return true
+	}
+	if isParam(fi, o) {
 		return false
 	}
 	ds := defsOf(fi, o)
